@@ -430,3 +430,53 @@ def c16(ctx):
         ctx.notes["bounds"] = "stream id classes {plain, with escaped XML metacharacters, non-ASCII, 320 chars, absent} x replies {handshake, 3 stream errors, unexpected element, malformed, closed, stream close} x 2 (thorough 3) connections on one Component x 4 secrets"
     replay_or(ctx, "comp", "TraceComponent", "Trace_Component.cfg", full)
     ctx.assumptions += ["the reference digest is crypto/sha1 + hex of (unescaped stream id + secret) computed in the harness (DESIGN.md section 9)"]
+
+
+# ------------------------------------------------------------------ C13
+def life_cfg(rounds, attempts, outcomes, sm, d6=False, d12=False, d27=False, emit=True):
+    b = lambda x: "TRUE" if x else "FALSE"
+    return """SPECIFICATION Spec
+CONSTANTS
+  MaxRounds = %d
+  MaxAttempts = %d
+  Outcomes = %s
+  Drops = {"abrupt", "graceful"}
+  SM = %s
+  TeardownEmitsDisconnected = %s
+  GracefulCloseBlocks = %s
+  DialErrorPermanent = %s
+  Emit = %s
+INVARIANTS C13_AtMostOneLoop C13_OneSessionPerLoss C13_PostConnectOncePerSession C13_AtMostOneLiveSession C13_PermanentEndsLoop C13_OnlyPermanentErrorsEndLoop C13_StopReturnsRun %s
+PROPERTIES C13_LossLeadsToSession
+CHECK_DEADLOCK FALSE
+""" % (rounds, attempts, outcomes, b(sm), b(d6), b(d12), b(d27), b(emit), "EmitInv" if emit else "")
+
+
+@check("C13")
+def c13(ctx):
+    q = ctx.tier == "quick"
+    def full():
+        scen = []
+        allo = S("refuse", "reset", "transient", "auth", "authtext")
+        gens = [dict(rounds=1, attempts=2, outcomes=allo, sm=True), dict(rounds=1, attempts=1, outcomes=allo, sm=False),
+                dict(rounds=2, attempts=1, outcomes=S("refuse", "transient"), sm=True)]
+        if not q:
+            gens += [dict(rounds=2, attempts=2, outcomes=allo, sm=True), dict(rounds=3, attempts=1, outcomes=S("reset", "transient"), sm=False)]
+        for g in gens:
+            scen += blines(vlib.tlc_mc(ctx, "Lifecycle", "MC_Lifecycle.cfg", cfgtext=life_cfg(**g)))
+        # non-vacuity: the three defects found in the code violate the properties in the model
+        for name, kw, code in (("D6 teardown reader emits Disconnected", dict(d6=True), 12), ("D12 graceful close blocks", dict(d12=True), 12),
+                               ("D27 dial error permanent", dict(d27=True), 12)):
+            r = vlib.run_tlc(ctx, "Lifecycle", "MC_Lifecycle.cfg", workers=2, timeout=300,
+                             cfgtext=life_cfg(rounds=2, attempts=2, outcomes=allo, sm=True, emit=False, **kw))
+            if r["code"] != code:
+                raise Infra("non-vacuity: the model variant '%s' did not violate a C13 property (exit %d)" % (name, r["code"]))
+        ctx.notes["non_vacuity"] = "model variants with D6 / D12 / D27 (code as found) each violate a C13 invariant"
+        ctx.exhaustive = True
+        ctx.notes["bounds"] = "fault sequences: k<=%d losses (abrupt reset / graceful stream close) x up to 2 failing attempts per loss from {connection refused, reset at open, negotiation torn down, credentials rejected} x resumption accepted or refused, SM on/off, then Stop" % (2 if q else 3)
+        out, nev, _ = vlib.run_driver(ctx, "life", scen=scen, timeout=3000)
+        ctx.verdicts += vlib.tlc_trace(ctx, "TraceLifecycle", "Trace_Lifecycle.cfg", out, nev, timeout=1800)
+    replay_or(ctx, "life", "TraceLifecycle", "Trace_Lifecycle.cfg", full)
+    ctx.assumptions += ["bounded waits: a new session must appear within 6 s of the server accepting connections again (back-off delays are tens of ms); 'no further attempt' is observed for 0.5 s",
+                        "TLS-policy permanent errors are covered by the negotiation model (C04); here the permanent error is rejected credentials"]
+FAMILY_TRACE["life"] = ("TraceLifecycle", "Trace_Lifecycle.cfg")
